@@ -35,7 +35,7 @@ const year = int64(365 * 24 * 3600)
 func nnsDomain(w *world, label string, k int) (string, atoms) {
 	owner := w.newAcc("nnsowner", 100_0000_0000)
 	admin := w.newAcc("nnsadmin", 100_0000_0000)
-	name := fmt.Sprintf("%s%d.neofs", label, k)
+	name := fmt.Sprintf("%s%d.neofs", label, w.seq) // w.seq: unique over all rows that share the scenario
 	nns := w.h["nns"]
 	w.must(nns, []neotest.Signer{owner}, "register", name, owner.ScriptHash(), "ops@nspcc.io", int64(3600), int64(600), year, int64(3600))
 	w.must(nns, []neotest.Signer{owner, admin}, "setAdmin", name, admin.ScriptHash())
@@ -520,6 +520,26 @@ func (w *world) safeEntry(c Cell) *tableEntry {
 			args[i] = w.sample.cid
 		}
 	}
+	if c.V == "edge" { // negative numbers, empty byte strings / strings / lists, the zero hash
+		for i, p := range md.Parameters {
+			switch p.Type {
+			case smartcontract.IntegerType:
+				args[i] = int64(-1)
+			case smartcontract.Hash160Type:
+				args[i] = util.Uint160{}
+			case smartcontract.StringType:
+				args[i] = ""
+			case smartcontract.ArrayType:
+				args[i] = []any{}
+			case smartcontract.BoolType:
+				args[i] = false
+			default:
+				args[i] = []byte{}
+			}
+		}
+		h := w.h[c.C]
+		return &tableEntry{setup: func(w *world, k int) *fixture { return plain(h, c.M, atoms{}, args...) }}
+	}
 	// arguments that reach the populated state
 	switch c.C + "." + c.M {
 	case "audit.get":
@@ -548,4 +568,193 @@ func (w *world) safeEntry(c Cell) *tableEntry {
 	}
 	h := w.h[c.C]
 	return &tableEntry{setup: func(w *world, k int) *fixture { return plain(h, c.M, atoms{}, args...) }}
+}
+
+// ---- argument variants (inert-only rows Access!ArgVariants): the canonical scenario of a method with one
+// argument replaced by a null / empty / zero / negative / self-referential value ----
+
+func variant(key, base string, mod func(w *world, fx *fixture)) {
+	fixtures[key] = &tableEntry{setup: func(w *world, k int) *fixture {
+		fx := fixtures[base].setup(w, k)
+		mod(w, fx)
+		return fx
+	}}
+}
+
+func setArg(i int, v any) func(w *world, fx *fixture) {
+	return func(w *world, fx *fixture) { fx.args[i] = v }
+}
+
+func init() {
+	for _, name := range contractNames {
+		variant(name+".update/3/data", name+".update/3/", setArg(2, []any{int64(7), []byte("extra")}))
+	}
+	// alphabet
+	variant("alphabet.vote/2/empty", "alphabet.vote/2/", setArg(1, []any{}))
+	variant("alphabet.vote/2/negepoch", "alphabet.vote/2/", setArg(0, int64(-1)))
+	fixtures["alphabet.onNEP17Payment/3/zero"] = callbackFixture("alphabet", 0)
+	fixtures["proxy.onNEP17Payment/3/zero"] = callbackFixture("proxy", 0)
+	fixtures["processing.onNEP17Payment/3/zero"] = callbackFixture("processing", 0)
+	fixtures["neofs.onNEP17Payment/3/zero"] = callbackFixture("neofs", 0)
+	reg("neofs.onNEP17Payment/3/ignore", func(w *world, k int) *fixture {
+		key := w.newAcc("payer", 100_0000_0000)
+		marker := []byte("\x57\x0b")
+		fx := plain(w.h["neofs"], "onNEP17Payment", atoms{"KEY": key}, key.ScriptHash(), int64(1_0000_0000), marker)
+		fx.call = func(set map[string]bool) (util.Uint160, string, []any) {
+			if set["VIAGAS"] {
+				return w.gas, "transfer", []any{key.ScriptHash(), w.h["neofs"], int64(1_0000_0000), marker}
+			}
+			return fx.target, fx.method, fx.args
+		}
+		return fx
+	})
+	// balance
+	self := func(from, to int) func(w *world, fx *fixture) {
+		return func(w *world, fx *fixture) { fx.args[to] = fx.args[from] }
+	}
+	variant("balance.transfer/4/data", "balance.transfer/4/", setArg(3, []byte("some data")))
+	variant("balance.transfer/4/neg", "balance.transfer/4/", setArg(2, int64(-5)))
+	variant("balance.transfer/4/self", "balance.transfer/4/", self(0, 1))
+	variant("balance.transferX/4/nodetails", "balance.transferX/4/", setArg(3, nil))
+	variant("balance.transferX/4/neg", "balance.transferX/4/", setArg(2, int64(-5)))
+	variant("balance.transferX/4/self", "balance.transferX/4/", self(0, 1))
+	variant("balance.lock/5/neg", "balance.lock/5/", setArg(3, int64(-5)))
+	variant("balance.lock/5/self", "balance.lock/5/", self(1, 2))
+	variant("balance.lock/5/neguntil", "balance.lock/5/", setArg(4, int64(-1)))
+	variant("balance.mint/3/neg", "balance.mint/3/", setArg(1, int64(-5)))
+	variant("balance.mint/3/nodetails", "balance.mint/3/", setArg(2, nil))
+	variant("balance.burn/3/neg", "balance.burn/3/", setArg(1, int64(-5)))
+	variant("balance.burn/3/nodetails", "balance.burn/3/", setArg(2, nil))
+	// locks of other rows that are already due at epoch 0 (lock/neguntil) are released beforehand, so that the
+	// tick of the variant has nothing to do whichever rows ran before (sampling)
+	early := func(e int64) func(w *world, fx *fixture) {
+		return func(w *world, fx *fixture) {
+			w.must(w.h["balance"], w.alpha(), "newEpoch", int64(0))
+			fx.args[0] = e
+		}
+	}
+	variant("balance.newEpoch/1/zero", "balance.newEpoch/1/", early(0))
+	variant("balance.newEpoch/1/neg", "balance.newEpoch/1/", early(-1))
+	// container
+	variant("container.put/4/token", "container.put/4/", setArg(3, []byte("session token")))
+	reg("container.put/4/alphaowner", func(w *world, k int) *fixture {
+		o := w.c.Members[0]
+		w.must(w.h["balance"], w.alpha(), "mint", o.ScriptHash(), int64(1_000_000), []byte("m"))
+		w.seq++
+		return plain(w.h["container"], "put", atoms{}, containerBlob(o.ScriptHash(), 7000+w.seq), make([]byte, 64), chain.Pub(o), []byte{})
+	})
+	variant("container.put/5/nometa", "container.put/5/", setArg(4, false))
+	variant("container.putNamed/6/noname", "container.putNamed/6/", setArg(4, ""))
+	variant("container.putNamed/6/zone", "container.putNamed/6/", setArg(5, "container"))
+	variant("container.delete/3/token", "container.delete/3/", setArg(2, []byte("session token")))
+	reg("container.delete/3/missing", func(w *world, k int) *fixture {
+		w.seq++
+		return plain(w.h["container"], "delete", atoms{}, det("nocid", w.seq, 32), make([]byte, 64), []byte{})
+	})
+	variant("container.setEACL/4/token", "container.setEACL/4/", setArg(3, []byte("session token")))
+	variant("container.addNextEpochNodes/3/empty", "container.addNextEpochNodes/3/", setArg(2, []any{}))
+	variant("container.commitContainerListUpdate/2/noreplicas", "container.commitContainerListUpdate/2/", setArg(1, nil))
+	reg("container.commitContainerListUpdate/2/nothing", func(w *world, k int) *fixture {
+		w.seq++
+		return plain(w.h["container"], "commitContainerListUpdate", atoms{}, det("cidN", w.seq, 32), nil)
+	})
+	variant("container.newEpoch/1/zero", "container.newEpoch/1/", setArg(0, int64(0)))
+	variant("container.newEpoch/1/neg", "container.newEpoch/1/", setArg(0, int64(-1)))
+	variant("container.startContainerEstimation/1/neg", "container.startContainerEstimation/1/", setArg(0, int64(-1)))
+	variant("container.stopContainerEstimation/1/zero", "container.stopContainerEstimation/1/", setArg(0, int64(0)))
+	reg("container.putContainerSize/4/zero", func(w *world, k int) *fixture {
+		cid, _ := newContainer(w, k, false) // a fresh container: the (epoch 0, cid, node) entry does not exist yet
+		return plain(w.h["container"], "putContainerSize", atoms{"KEY": w.node0}, int64(0), cid, int64(0), chain.Pub(w.node0))
+	})
+	reg("container.putContainerSize/4/neg", func(w *world, k int) *fixture {
+		cid, _ := newContainer(w, k, false)
+		return plain(w.h["container"], "putContainerSize", atoms{"KEY": w.node0}, int64(-1), cid, int64(-1), chain.Pub(w.node0))
+	})
+	variant("container.submitObjectPut/2/nosigs", "container.submitObjectPut/2/", func(w *world, fx *fixture) {
+		inner := fx.call
+		fx.call = func(set map[string]bool) (util.Uint160, string, []any) {
+			h, m, a := inner(set)
+			if !set["ARGSIG"] {
+				a = []any{a[0], []any{}}
+			}
+			return h, m, a
+		}
+	})
+	// neofs
+	variant("neofs.alphabetUpdate/2/empty", "neofs.alphabetUpdate/2/", setArg(1, []any{}))
+	variant("neofs.bind/2/empty", "neofs.bind/2/", setArg(1, []any{}))
+	variant("neofs.unbind/2/empty", "neofs.unbind/2/", setArg(1, []any{}))
+	variant("neofs.cheque/4/zero", "neofs.cheque/4/", setArg(2, int64(0)))
+	variant("neofs.cheque/4/neg", "neofs.cheque/4/", setArg(2, int64(-1)))
+	variant("neofs.cheque/4/self", "neofs.cheque/4/", func(w *world, fx *fixture) { fx.args[1] = w.h["neofs"] })
+	reg("neofs.innerRingCandidateAdd/1/alphakey", func(w *world, k int) *fixture {
+		m := w.c.Members[0]
+		// make sure the key is not a candidate (an earlier instance may have gone through)
+		w.c.Run(w.h["neofs"], []neotest.Signer{m}, "innerRingCandidateRemove", chain.Pub(m))
+		return plain(w.h["neofs"], "innerRingCandidateAdd", atoms{"KEY": m}, chain.Pub(m))
+	})
+	reg("neofs.innerRingCandidateRemove/1/absent", func(w *world, k int) *fixture {
+		u := w.newAcc("noncandidate", 10_0000_0000)
+		return plain(w.h["neofs"], "innerRingCandidateRemove", atoms{"KEY": u}, chain.Pub(u))
+	})
+	reg("neofs.setConfig/3/empty", func(w *world, k int) *fixture {
+		// toggle the stored value so that every instance is visible
+		v := []byte{}
+		if k%2 == 1 {
+			w.must(w.h["neofs"], w.alpha(), "setConfig", []byte("x"), []byte{}, []byte("filled"))
+		} else {
+			w.must(w.h["neofs"], w.alpha(), "setConfig", []byte("x"), []byte{}, []byte("filled again"))
+		}
+		return plain(w.h["neofs"], "setConfig", atoms{}, []byte{}, []byte{}, v)
+	})
+	variant("neofs.withdraw/2/zero", "neofs.withdraw/2/", setArg(1, int64(0)))
+	variant("neofs.withdraw/2/neg", "neofs.withdraw/2/", setArg(1, int64(-1)))
+	// neofsid
+	variant("neofsid.addKey/2/empty", "neofsid.addKey/2/", setArg(1, []any{}))
+	variant("neofsid.removeKey/2/empty", "neofsid.removeKey/2/", setArg(1, []any{}))
+	// netmap
+	reg("netmap.addNode/1/alphakey", func(w *world, k int) *fixture {
+		m := w.c.Members[0]
+		return plain(w.h["netmap"], "addNode", atoms{"KEY": m}, node2(chain.Pub(m), 500+w.seq+k, 1))
+	})
+	reg("netmap.deleteNode/1/absent", func(w *world, k int) *fixture {
+		u := w.newAcc("nonnode", 0)
+		return plain(w.h["netmap"], "deleteNode", atoms{}, chain.Pub(u))
+	})
+	variant("netmap.newEpoch/1/zero", "netmap.newEpoch/1/", setArg(0, int64(0)))
+	variant("netmap.newEpoch/1/neg", "netmap.newEpoch/1/", setArg(0, int64(-1)))
+	reg("netmap.setConfig/3/empty", func(w *world, k int) *fixture {
+		w.must(w.h["netmap"], w.alpha(), "setConfig", []byte("x"), []byte{}, []byte(fmt.Sprintf("filled %d", k)))
+		return plain(w.h["netmap"], "setConfig", atoms{}, []byte{}, []byte{}, []byte{})
+	})
+	reg("netmap.subscribeForNewEpoch/1/again", func(w *world, k int) *fixture {
+		return plain(w.h["netmap"], "subscribeForNewEpoch", atoms{}, w.h["balance"])
+	})
+	variant("netmap.updateSnapshotCount/1/neg", "netmap.updateSnapshotCount/1/", setArg(0, int64(-1)))
+	variant("netmap.updateSnapshotCount/1/same", "netmap.updateSnapshotCount/1/", func(w *world, fx *fixture) {
+		fx.args[0] = fx.args[0].(int64) - 1
+	})
+	variant("netmap.updateState/2/offline", "netmap.updateState/2/", setArg(0, int64(2)))
+	variant("netmap.updateState/2/badstate", "netmap.updateState/2/", setArg(0, int64(0)))
+	variant("netmap.updateStateIR/2/offline", "netmap.updateStateIR/2/", setArg(0, int64(2)))
+	variant("netmap.updateStateIR/2/badstate", "netmap.updateStateIR/2/", setArg(0, int64(0)))
+	// nns
+	variant("nns.addRecord/3/emptytxt", "nns.addRecord/3/", setArg(2, ""))
+	variant("nns.register/7/noemail", "nns.register/7/", setArg(2, ""))
+	variant("nns.renew/2/zero", "nns.renew/2/", setArg(1, int64(0)))
+	variant("nns.renew/2/neg", "nns.renew/2/", setArg(1, int64(-1)))
+	variant("nns.setAdmin/2/null", "nns.setAdmin/2/", setArg(1, nil))
+	variant("nns.setAdmin/2/self", "nns.setAdmin/2/", func(w *world, fx *fixture) { fx.args[1] = fx.atoms["OWNER"].ScriptHash() })
+	// (no zero-price variant: setPrice(0) is accepted, after which every register faults in BurnGas(0))
+	variant("nns.setPrice/1/neg", "nns.setPrice/1/", setArg(0, int64(-1)))
+	variant("nns.transfer/3/data", "nns.transfer/3/", setArg(2, []byte("some data")))
+	variant("nns.transfer/3/self", "nns.transfer/3/", func(w *world, fx *fixture) { fx.args[0] = fx.atoms["OWNER"].ScriptHash() })
+	variant("nns.updateSOA/6/noemail", "nns.updateSOA/6/", setArg(1, ""))
+	// reputation
+	reg("reputation.put/3/zero", func(w *world, k int) *fixture {
+		return plain(w.h["reputation"], "put", atoms{}, int64(0), []byte{}, []byte{})
+	})
+	reg("reputation.put/3/neg", func(w *world, k int) *fixture {
+		return plain(w.h["reputation"], "put", atoms{}, int64(-1), w.sample.peer, []byte{})
+	})
 }
